@@ -56,7 +56,7 @@ func c13Fanout(c *Ctx, p *Prog, m *Model) {
 	loop := loopBlocks(lw)
 	var inv *ssa.Call
 	for _, cs := range callsIn(lw) {
-		if call, ok := cs.(*ssa.Call); ok && call.Common().IsInvoke() && call.Common().Method.Name() == "Write" {
+		if call, ok := cs.(*ssa.Call); ok && call.Common().IsInvoke() && nm(call.Common().Method) == "Write" {
 			inv = call
 		}
 	}
@@ -150,7 +150,7 @@ func failureRegion(p *Prog, m *Model) []*ssa.Function {
 			return true
 		}
 		// selection of the destination is configuration reading, not failure handling
-		if fn.Name() == "findWriter" {
+		if nm(fn) == "findWriter" {
 			return true
 		}
 		return false
@@ -278,7 +278,7 @@ func c13Reaction(c *Ctx, p *Prog, m *Model) {
 			probs4 = append(probs4, fmt.Sprintf("store to %s.%s at %s", fs.Struct, fs.Field, p.Pos(instrPos(fs.Instr))))
 		}
 		for _, gs := range globalStores(fn) {
-			probs4 = append(probs4, fmt.Sprintf("store to package variable %s at %s", gs.G.Name(), p.Pos(instrPos(gs.Instr))))
+			probs4 = append(probs4, fmt.Sprintf("store to package variable %s at %s", nm(gs.G), p.Pos(instrPos(gs.Instr))))
 		}
 		r.Check(len(probs3) == 0, "R13.3", "fn:"+name, p.FuncPos(fn), "no explicit failure construct on the failure path", strings.Join(probs3, "; "))
 		r.Check(len(probs4) == 0, "R13.4", "fn:"+name, p.FuncPos(fn), "stores nothing but locals", "failure handling leaves state behind: "+strings.Join(probs4, "; "))
@@ -292,7 +292,7 @@ func isErrorOfWrite(v ssa.Value) bool {
 				if invokeName(call) == "Write" {
 					return true
 				}
-				if cal := calleeOf(call); cal != nil && cal.Name() == "Write" {
+				if cal := calleeOf(call); cal != nil && nm(cal) == "Write" {
 					return true
 				}
 			}
